@@ -24,8 +24,16 @@ pub fn write_all_shapes<T: std::io::Write + std::io::Seek>(w: &mut ShapeWriter<T
 
 /// write with the real writer into instrumented cursors; returns (shp, shx)
 pub fn write_cursor(shapes: &[Shape], explicit_finalize: bool) -> Result<(Vec<u8>, Vec<u8>), String> {
+    write_cursor_at(shapes, explicit_finalize, 0)
+}
+
+/// `pos0`: the (empty) destinations are handed over with their cursor at that position, like a
+/// cleared buffer that is being reused: the files still have to start at offset 0
+pub fn write_cursor_at(shapes: &[Shape], explicit_finalize: bool, pos0: u64) -> Result<(Vec<u8>, Vec<u8>), String> {
     let shp = LogDest::new();
     let shx = LogDest::new();
+    shp.0.borrow_mut().pos = pos0;
+    shx.0.borrow_mut().pos = pos0;
     let r = guarded(|| {
         let mut w = ShapeWriter::with_shx(shp.clone(), shx.clone());
         let r = write_all_shapes(&mut w, shapes);
@@ -44,6 +52,15 @@ pub fn write_cursor(shapes: &[Shape], explicit_finalize: bool) -> Result<(Vec<u8
 
 /// files that already exist at the path (usually longer than what a case writes): a writer
 /// created by path must replace them (C02: no trailing bytes)
+/// file names a path constructor has to cope with: lower-case, upper-case extension, dotted stem
+pub fn path_variant(dir: &Path, stem: &str, id: usize) -> PathBuf {
+    match id % 3 {
+        0 => dir.join(format!("{}{}.shp", stem, id)),
+        1 => dir.join(format!("{}{}.SHP", stem.to_uppercase(), id)),
+        _ => dir.join(format!("{}.v{}.x.shp", stem, id)),
+    }
+}
+
 pub fn prepopulate(path: &Path) {
     // (a few KB suffice: most files of the cases are shorter, and a writer that does not replace the
     // old file then leaves a stale tail; kept small because the bytes travel through the traces)
@@ -175,6 +192,50 @@ pub fn read_collect_route(c: &Conc, shp: &[u8], shx: Option<&[u8]>, t: i32, gene
         Ok(Ok(items)) => res_json(c, &items, None, None),
         Ok(Err(e)) => res_json(c, &[], Some(err_json(&e)), None),
         Err(p) => json!({"items": [], "openErr": "", "err": "panic", "code": 0, "msg": p, "nonePastEnd": true}),
+    }
+}
+
+/// sequential reading through Iterator adaptors: `it.nth(k)` yields shape k, the following `next()`s the
+/// rest; `count()` and `last()` on fresh iterators (reported in the extra fields)
+pub fn read_adaptor_route(c: &Conc, shp: &[u8], shx: Option<&[u8]>, t: i32, generic: bool, k: usize) -> Value {
+    let open = || match shx {
+        Some(x) => ShapeReader::with_shx(Cursor::new(shp.to_vec()), Cursor::new(x.to_vec())),
+        None => ShapeReader::new(Cursor::new(shp.to_vec())),
+    };
+    let r = guarded(|| -> Result<(Vec<Shape>, usize, Option<Shape>), Error> {
+        let mut items = vec![];
+        let (cnt, last);
+        if generic || t == 0 {
+            let mut rd = open()?;
+            let mut it = rd.iter_shapes();
+            if let Some(x) = it.nth(k) { items.push(x?); }
+            for x in it { items.push(x?); }
+            cnt = open()?.iter_shapes().count();
+            last = match open()?.iter_shapes().last() { Some(x) => Some(x?), None => None };
+        } else {
+            let (a, b, cc) = for_type!(t, S, {
+                let mut rd = open()?;
+                let mut it = rd.iter_shapes_as::<S>();
+                let mut v = vec![];
+                if let Some(x) = it.nth(k) { v.push(Shape::from(x?)); }
+                for x in it { v.push(Shape::from(x?)); }
+                let cnt = open()?.iter_shapes_as::<S>().count();
+                let last = match open()?.iter_shapes_as::<S>().last() { Some(x) => Some(Shape::from(x?)), None => None };
+                (v, cnt, last)
+            });
+            items = a; cnt = b; last = cc;
+        }
+        Ok((items, cnt, last))
+    });
+    match r {
+        Ok(Ok((items, cnt, last))) => {
+            let mut v = res_json(c, &items, None, None);
+            v["count"] = json!(cnt);
+            v["last"] = match last { Some(s) => json!([abstract_shape(c, &s).to_json()]), None => json!([]) };
+            v
+        }
+        Ok(Err(e)) => { let mut v = res_json(c, &[], Some(err_json(&e)), None); v["count"] = json!(-1); v["last"] = json!([]); v }
+        Err(p) => json!({"items": [], "openErr": "", "err": "panic", "code": 0, "msg": p, "nonePastEnd": true, "count": -1, "last": []}),
     }
 }
 
@@ -339,7 +400,7 @@ pub fn run_case(tr: &mut Trace, c: &Conc, prop: &str, t: i32, ashapes: &[AShape]
             return;
         }
     };
-    let path = tmp.join(format!("c{}.shp", id));
+    let path = path_variant(tmp, "c", id);
     let wrote_path = write_path(&shapes, &path);
     let shxp = path.with_extension("shx");
     if all || prop == "C02" || prop == "C04" || prop == "C05" {
@@ -347,6 +408,12 @@ pub fn run_case(tr: &mut Trace, c: &Conc, prop: &str, t: i32, ashapes: &[AShape]
         match write_cursor(&shapes, true) {
             Ok((a, b)) => tr.emit(json!({"ev": "written", "via": "cursor-finalize", "shp": jbytes(&a), "shx": jbytes(&b)})),
             Err(e) => tr.emit(json!({"ev": "writefail", "msg": e})),
+        }
+        if n > 0 {
+            match write_cursor_at(&shapes, false, 37) {
+                Ok((a, b)) => tr.emit(json!({"ev": "written", "via": "cursor-positioned", "shp": jbytes(&a), "shx": jbytes(&b)})),
+                Err(e) => tr.emit(json!({"ev": "writefail", "msg": e})),
+            }
         }
         match &wrote_path {
             Ok(()) => {
@@ -375,6 +442,13 @@ pub fn run_case(tr: &mut Trace, c: &Conc, prop: &str, t: i32, ashapes: &[AShape]
                     let r = read_cursor_route(c, &shp, if with_shx { Some(&shx) } else { None }, t, generic, random, n);
                     tr.emit(json!({"ev": "readback", "generic": generic, "random": random, "withShx": with_shx,
                                    "via": "cursor", "res": r}));
+                }
+            }
+            // the Iterator adaptors that an implementation may override: nth(k) then the rest, count(), last()
+            for &with_shx in &[true, false] {
+                for k in 0..3usize.min(n) {
+                    let r = read_adaptor_route(c, &shp, if with_shx { Some(&shx) } else { None }, t, generic, k);
+                    tr.emit(json!({"ev": "readback", "generic": generic, "random": false, "withShx": with_shx, "via": "nth", "skip": k, "res": r}));
                 }
             }
             for &with_shx in &[true, false] {
